@@ -448,5 +448,73 @@ theorem invWith_eq (h64 : p ^ n < 2 ^ 64) {a : α} (ha : L.valid a) :
     exact (L.inv_none a ha ((L.isZero_iff a ha).1 hz)).symm
 
 end Log
+/-! ## 5. extfield -/
+
+section Ext
+variable {p n : Nat} {g : List Nat} {K : Type} [Field K] (L : Lawful (extOps p n g) K)
+  (hL : Assemble.FieldFacts L p n)
+  (hcanon : ∀ a, L.valid a → UPoly.Canon (primeOps p) a)
+include hL
+
+omit hL in
+/-- the printed form (`String()`, the key of the Go map) is injective on valid elements -/
+theorem ext_toStr_inj (hcanon : ∀ a, L.valid a → UPoly.Canon (primeOps p) a) :
+    ∀ a b, L.valid a → L.valid b → (extOps p n g).toStr a = (extOps p n g).toStr b → a = b :=
+  fun a b ha hb h =>
+    Strings.utoStr_injective (v := "a") (x := 'a') (vt := []) (by decide) (by decide) (by decide)
+      (hcanon a ha) (hcanon b hb) h
+
+include hcanon
+
+/-- tabled `Prod` of extfield = `Ext.mul` -/
+theorem ext_mulT_eq (hq : p ^ n ≤ 2 ^ 63) {b c : UPoly Nat} (hb : L.valid b) (hc : L.valid c) :
+    Ext.mulT p n g b c = Ext.mul p g b c :=
+  mulWith_eq L hL (ext_toStr_inj L hcanon) hq hb hc
+
+/-- tabled `Inv` of extfield = `Ext.inv` -/
+theorem ext_invT_eq (h64 : p ^ n < 2 ^ 64) {a : UPoly Nat} (ha : L.valid a) :
+    Ext.invT p n g a = Ext.inv p g a :=
+  invWith_eq L hL (ext_toStr_inj L hcanon) h64 ha
+
+/-- tabled `Pow` of extfield = `Ext.pow` -/
+theorem ext_powT_eq (hq : p ^ n ≤ 2 ^ 63) {a : UPoly Nat} (ha : L.valid a) (k : Nat) :
+    Ext.powT p n g a k = Ext.pow p n g a k := by
+  unfold Ext.powT Ext.pow
+  exact genericPow_congr _ _ _ _ (Ext.mul p g) (Ext.mulT p n g) L.valid L.one_valid
+    L.mul_valid (fun x y hx hy => ext_mulT_eq L hL hcanon hq hx hy) a ha k
+
+theorem ext_traceLoopT_eq (hq : p ^ n ≤ 2 ^ 63) {a : UPoly Nat} (ha : L.valid a) (k : Nat) :
+    ∀ out, L.valid out → Ext.traceLoopT p n g a out k = Ext.traceLoop p n g a out k := by
+  induction k with
+  | zero => intro out _; rfl
+  | succ k ih =>
+    intro out ho
+    rw [Ext.traceLoopT, Ext.traceLoop, ext_powT_eq L hL hcanon hq ho]
+    exact ih _ (L.add_valid _ _ (hL.pow out p ho).1 ha)
+
+/-- tabled `Trace` of extfield = `Ext.trace` -/
+theorem ext_traceT_eq (hq : p ^ n ≤ 2 ^ 63) {a : UPoly Nat} (ha : L.valid a) :
+    Ext.traceT p n g a = Ext.trace p n g a :=
+  ext_traceLoopT_eq L hL hcanon hq ha _ a ha
+
+/-- the tabled record of an extension field is the untabled one on valid elements -/
+theorem extOpsT_agree (hq : p ^ n ≤ 2 ^ 63) (tab : Bool) :
+    OpsAgree (extOps p n g) (extOpsT p n g tab) L.valid := by
+  cases tab
+  · exact OpsAgree.refl _ _
+  · exact
+      { char := rfl, card := rfl, zero := rfl, one := rfl, gen := rfl
+        add := fun _ _ _ _ => rfl
+        sub := fun _ _ _ _ => rfl
+        mul := fun a b ha hb => ext_mulT_eq L hL hcanon hq ha hb
+        neg := fun _ _ => rfl
+        inv := fun a ha => ext_invT_eq L hL hcanon (lt_of_le_of_lt hq (by norm_num)) ha
+        pow := fun a k ha => ext_powT_eq L hL hcanon hq ha k
+        trace := fun a ha => ext_traceT_eq L hL hcanon hq ha
+        isZero := rfl, isOne := rfl, beq := rfl, ofNat := rfl, ofInt := rfl, nTerms := rfl
+        toStr := rfl, parse := rfl, regex := rfl, enc := rfl, dec := rfl, ownVar := rfl }
+
+end Ext
+
 end Tables
 end Algobra
